@@ -87,6 +87,43 @@ class Collector:
         return len(s)
 
 
+class Prefixed:
+    """A collector view for a rule pack run on behalf of another property (the io rules under the tensor round trip):
+    same collector, rule ids prefixed with the pack they come from."""
+
+    def __init__(self, col, prefix):
+        object.__setattr__(self, "_c", col)
+        object.__setattr__(self, "_p", prefix)
+        object.__setattr__(self, "_own", {})
+
+    def rule(self, rid, desc, floor=0):
+        return self._c.rule(self._p + rid, desc, floor)
+
+    def instance(self, rid, loc, key, ok=True, detail=None, nontrivial=True):
+        self._c.instance(self._p + rid, loc, key, ok, detail, nontrivial)
+
+    def ok(self, rid, loc, key, detail=None, nontrivial=True):
+        self._c.instance(self._p + rid, loc, key, True, detail, nontrivial)
+
+    def violation(self, rid, key, loc, msg, detail=None):
+        self._c.violation(self._p + rid, key, loc, msg, detail)
+
+    def obligation(self, discharged):
+        self._c.obligation(discharged)
+
+    def __getattr__(self, name):
+        own = object.__getattribute__(self, "_own")
+        if name in own:
+            return own[name]
+        if name in ("samples", "extra"):
+            own[name] = [] if name == "samples" else {}
+            return own[name]
+        return getattr(object.__getattribute__(self, "_c"), name)
+
+    def __setattr__(self, name, value):
+        self._own[name] = value   # samples / extra of the borrowed pack stay with the view
+
+
 class Check(Collector):
     def __init__(self, pid, tier, level, seed=0):
         super().__init__(pid)
